@@ -4,8 +4,8 @@
 // that a goroutine waiting for a lock is *durably blocked* in the sense of testing/synctest
 // (a goroutine blocked in sync.Mutex.Lock is not, and would hang synctest.Wait and virtual
 // time whenever the holder is parked by the explorer). It is substituted by an import rewrite
-// in a short list of repository files (see bin/check SYNC_REWRITE). Everything else aliases
-// the real package.
+// in a short list of repository files (see bin/check SYNC_REWRITE). WaitGroup is a contract-checking
+// re-implementation (waitgroup.go). Everything else aliases the real package.
 package vsync
 
 import (
@@ -14,7 +14,6 @@ import (
 )
 
 type (
-	WaitGroup = sync.WaitGroup
 	Once      = sync.Once
 	Pool      = sync.Pool
 	Map       = sync.Map
